@@ -1,6 +1,7 @@
 import QuantemModel.Lemmas.Radon
 import QuantemModel.Lemmas.RadonLinear
 import QuantemModel.Lemmas.RadonPad
+import QuantemModel.Lemmas.RadonSymmetry
 /-!
 C07 — the torch Radon transform / filtered back-projection (Model/Radon.lean: `radonTorch*`,
 `fourierFilterTorch`, `iradonTorch`) is the same real function as the scikit-image reference
@@ -59,6 +60,50 @@ transform returned 0 where scikit-image (and the column sum) give 1. -/
 theorem radon_legacy_counterexample :
     radonLegacyAt pin 2 (0 : ℝ) 1 = 0 ∧ radonSkAt (masked pin 2) 2 (0 : ℝ) 1 = 1 :=
   radon_legacy_counter
+
+/-! ## 1b. Symmetries of the transform -/
+
+/-- **radon_mask_idempotent**: radon_torch masks the image itself, so masking first changes
+nothing (the sinogram depends only on the disc-masked image). -/
+theorem radon_mask_idempotent (f : Int → Int → ℝ) (N : Nat) (θ : ℝ) (x : Nat) :
+    radonTorchAt (masked f N) N θ x = radonTorchAt f N θ x :=
+  radonTorchAt_masked f N θ x
+
+/-- the shared bilinear primitive commutes with transposition and with reflection of the rows
+about any integer (the upper/lower neighbours and their weights swap). -/
+theorem bilinear_symmetries (f : Int → Int → ℝ) (K : ℤ) (u v : ℝ) :
+    bilinear f u v = bilinear (fun i j => f j i) v u ∧
+    bilinear f ((K : ℝ) - u) v = bilinear (fun i j => f (K - i) j) u v :=
+  ⟨bilinear_transpose f u v, bilinear_reflect_row f K u v⟩
+
+/-- **radon_rot90** (reference, every size): the transform at `θ + 90°` is the transform at `θ`
+of the image rotated by 90° about `(N//2, N//2)` — the sinogram of the rotated image is the
+sinogram shifted by 90° in angle. -/
+theorem radon_rot90 (f : Int → Int → ℝ) (N : Nat) (θ : ℝ) (x : Nat) :
+    radonSkAt f N (θ + 90) x = radonSkAt (rot90 N f) N θ x :=
+  radonSkAt_add_90 f N θ x
+
+/-- **radon_rot90_torch**: the same for the torch port, where the disc mask is applied before
+the rotation … -/
+theorem radon_rot90_torch (f : Int → Int → ℝ) (N : Nat) (hN : 2 ≤ N) (θ : ℝ) (x : Nat) :
+    radonTorchAt f N (θ + 90) x = radonSkAt (rot90 N (masked f N)) N θ x :=
+  radonTorchAt_add_90 f N hN θ x
+
+/-- … and for odd `N`, where the disc mask is invariant under the rotation, radon_torch of the
+rotated image is radon_torch shifted by 90°. -/
+theorem radon_rot90_torch_odd (f : Int → Int → ℝ) (N : Nat) (hN : 2 ≤ N) (hodd : N % 2 = 1) (θ : ℝ) (x : Nat) :
+    radonTorchAt f N (θ + 90) x = radonTorchAt (rot90 N f) N θ x :=
+  radonTorchAt_add_90_odd f N hN hodd θ x
+
+example : radonTorchAt pin 3 ((37 : ℝ) + 90) 1 = radonTorchAt (rot90 3 pin) 3 37 1 :=
+  radon_rot90_torch_odd pin 3 (by norm_num) (by norm_num) _ _
+
+/-- `mask_rot90_even_counterexample`: for even `N` the disc mask is *not* invariant under the
+rotation about `N//2` (N = 2: pixel (1,0) is in the disc, its image (2,1) is outside the
+array), which is why the odd-size statement above needs its hypothesis. -/
+theorem mask_rot90_even_counterexample :
+    inDisc 2 1 0 = true ∧ inDisc 2 (2 * ((2 / 2 : Nat) : ℤ) - 0) 1 = false :=
+  inDisc_rot90_even_counter
 
 /-! ## 2. Fourier filters -/
 
